@@ -216,9 +216,17 @@ func (c CodeQuery) Exec(ctx *Context, loc *Location, qc QueryContext, qr QueryRe
 			}
 		}
 
-		maybeCopyEvent(bs)
+		// The script gets bindings of its own.  The incoming ones
+		// are not ours to change (the other terms of the query
+		// and, later, the actions work from them), and that
+		// includes swapping in a copy of the event.
+		own := make(Bindings, len(bs))
+		for p, v := range bs {
+			own[p] = v
+		}
+		maybeCopyEvent(own)
 
-		x, err := RunJavascript(ctx, bs.StripQuestionMarks(ctx), props, script)
+		x, err := RunJavascript(ctx, own.StripQuestionMarks(ctx), props, script)
 		if err != nil {
 			Log(WARN, ctx, "CodeQuery.Exec", "error", err)
 			return nil, err
